@@ -172,6 +172,12 @@ impl<T> CacheAlignedVec<T> {
         if new_capacity == 0 {
             return Ok(());
         }
+        if mem::size_of::<T>() == 0 {
+            // zero-sized elements need no memory (and the arithmetic below divides by the element size):
+            // like Vec, report an unbounded capacity; Drop deallocates nothing for such a type
+            self.capacity = usize::MAX;
+            return Ok(());
+        }
 
         // Ensure capacity is aligned to cache line boundaries for optimal access
         let aligned_capacity =
@@ -218,8 +224,8 @@ impl<T> Drop for CacheAlignedVec<T> {
         // Drop all elements first
         self.clear();
 
-        // Deallocate memory
-        if self.capacity > 0 {
+        // Deallocate memory (nothing was allocated for zero-sized elements)
+        if self.capacity > 0 && mem::size_of::<T>() != 0 {
             let layout =
                 Layout::from_size_align(self.capacity * mem::size_of::<T>(), CACHE_LINE_SIZE)
                     .unwrap();
